@@ -72,15 +72,17 @@ type cmsAttr struct {
 
 func cmsShapedSeeds(c *Ctx) []p7Seed {
 	k0, k1 := poolKey(c, 2048, 0), poolKey(c, 2048, 1)
-	sh := certShapes(c)[2]
-	right, twin, other := makeRSACert(k0, sh), makeRSACert(k1, sh), makeRSACert(k1, certShapes(c)[0])
 	var seeds []p7Seed
-	for _, attached := range []bool{false, true} {
-		for _, smimecap := range []bool{false, true} {
-			for _, withCerts := range []bool{true, false} {
-				b := buildCMS(k0, right, []byte("harness-built CMS content"), attached, smimecap, withCerts)
-				if b != nil {
-					seeds = append(seeds, p7Seed{fmt.Sprintf("cms-shaped/attached=%v/smimecap=%v/certs=%v", attached, smimecap, withCerts), b, right, twin, other, true})
+	// a self-signed signer and one issued by a CA (issuer and subject differ)
+	for _, sh := range []certShape{certShapes(c)[2], certShapes(c)[9]} {
+		right, twin, other := makeRSACert(k0, sh), makeRSACert(k1, sh), makeRSACert(k1, certShapes(c)[0])
+		for _, attached := range []bool{false, true} {
+			for _, smimecap := range []bool{false, true} {
+				for _, withCerts := range []bool{true, false} {
+					b := buildCMS(k0, right, []byte("harness-built CMS content"), attached, smimecap, withCerts)
+					if b != nil {
+						seeds = append(seeds, p7Seed{fmt.Sprintf("cms-shaped/%s/attached=%v/smimecap=%v/certs=%v", sh.desc, attached, smimecap, withCerts), b, right, twin, other, true})
+					}
 				}
 			}
 		}
@@ -219,7 +221,7 @@ func c16Gen(c *Ctx) {
 
 func init() {
 	register("C16", &PropDef{
-		Rule:   "OpenSSL smime/cms x {detached, -nodetach} x {-nosmimecap} x {-nocerts} x {-cades} produced at check time when the CLI exists; harness-built CMS SignedData in OpenSSL's shape (DER-sorted attribute SET, S/MIME capabilities on/off, attached/detached, certificates on/off); the sbsign / sbvarsign artefacts of the repository. Each is parsed and verified against the signer's certificate, a twin (same issuer+serial, other key) and an unrelated certificate, and its signed attributes are re-encoded and compared with the transmitted bytes. Every case is non-trivial; distinct = distinct (blob, certificate).",
+		Rule:   "OpenSSL smime/cms x {detached, -nodetach} x {-nosmimecap} x {-nocerts} x {-cades} produced at check time when the CLI exists; harness-built CMS SignedData in OpenSSL's shape (DER-sorted attribute SET, S/MIME capabilities on/off, attached/detached, certificates on/off, signer self-signed or issued by a CA); the sbsign / sbvarsign artefacts of the repository. Each is parsed and verified against the signer's certificate, a twin (same issuer+serial, other key) and an unrelated certificate, and its signed attributes are re-encoded and compared with the transmitted bytes. Every case is non-trivial; distinct = distinct (blob, certificate).",
 		Assume: []string{"which OpenSSL configurations ran is recorded in notes.openssl; nothing depends on the CLI being present"},
 		Eval:   c16Eval, Gen: c16Gen,
 	})
